@@ -1,17 +1,15 @@
-use vharness::leafnative::*;
-use wormhole_prover::WormholeProver;
-use rayon::prelude::*;
+use vharness::fixtures::*;
+use wormhole_aggregator::private_batch::prover::PrivateBatchProver;
+use plonky2::plonk::circuit_data::CircuitConfig;
 fn main(){
-    let t=std::time::Instant::now();
-    let mode = std::env::args().nth(1).unwrap_or("seq".into());
-    let ps: Vec<HonestParams> = (0..32).map(|i| { let depth=(i%17) as usize; HonestParams{seed:i,depth,positions:vec![(i%4) as u8;depth],asset:0,input:1000,fee:10,out1:500,out2:400,tc:5,block_number:1}}).collect();
-    let f = |p:&HonestParams| {
-        let h=build(p);
-        let prover = WormholeProver::new(zk_circuits_common::circuit::wormhole_leaf_circuit_config()).unwrap();
-        let c = prover.commit(&h.inputs).unwrap();
-        let pr = c.prove();
-        eprintln!("{} {:?} {:?}", p.seed, pr.is_ok(), t.elapsed());
-    };
-    if mode=="seq" { ps.iter().for_each(f); } else { ps.par_iter().for_each(f); }
-    println!("total {:?}", t.elapsed());
+    let leaf = leaf_verifier();
+    let dummy = dummy_leaf_proof();
+    for n in [2usize,3] {
+      for zk in [true,false] {
+        let cfg = CircuitConfig{ zero_knowledge: zk, ..zk_circuits_common::circuit::wormhole_private_batch_circuit_config()};
+        let t=std::time::Instant::now();
+        let p = PrivateBatchProver::new(cfg, leaf.common.clone(), &leaf.verifier_only, n, dummy.clone()).unwrap();
+        println!("n={n} zk={zk} build {:?} degree_bits {}", t.elapsed(), p.circuit_data.common.degree_bits());
+      }
+    }
 }
